@@ -148,8 +148,6 @@ Section Laws.
   Proof. reflexivity. Qed.
 
   (* evaluation of a comparison node, stated without the helper *)
-  Definition link_res (op : cmpop) (lv rv : value) : outcome * value := compare_link op lv rv.
-
   Lemma eval_compare_nil a sc :
     ev (ECompare a []) sc = match ev a sc with (Val _, sc1) => (Val (VBool true), sc1) | bad => bad end.
   Proof.
@@ -166,8 +164,8 @@ Section Laws.
         match ev b sc1 with
         | (Val vb, sc2) =>
             match compare_link op va vb with
-            | (Val v, _) => (Val (VBool (truthy v)), sc2)
-            | (o, _) => (wrap o, sc2)
+            | Val v => (Val (VBool (truthy v)), sc2)
+            | o => (wrap o, sc2)
             end
         | bad => bad
         end
@@ -180,11 +178,11 @@ Section Laws.
     cbn [eval_compare]. destruct (ev b sc1) as [ob sc2] eqn:Eb.
     assert (Wb : wrap ob = ob) by (pose proof (eval_wrapped b sc1) as W; rewrite Eb in W; exact W).
     destruct ob; cbn [fst snd wrap] in *; try (rewrite ?Wb; reflexivity).
-    destruct (compare_link op v v0) as [o c]. destruct o; cbn [fst snd wrap]; try reflexivity.
-    destruct (truthy v1); reflexivity.
+    destruct (compare_link op v v0) as [w| |k|u]; cbn [fst snd wrap]; try reflexivity.
+    destruct (truthy w); reflexivity.
   Qed.
 
-  (* two links *)
+  (* two links: the second link starts from b's value as written *)
   Lemma eval_compare_two a op1 b op2 c sc :
     ev (ECompare a [(op1, b); (op2, c)]) sc =
     match ev a sc with
@@ -192,18 +190,18 @@ Section Laws.
         match ev b sc1 with
         | (Val vb, sc2) =>
             match compare_link op1 va vb with
-            | (Val v, carried) =>
+            | Val v =>
                 if truthy v then
                   match ev c sc2 with
                   | (Val vc, sc3) =>
-                      match compare_link op2 carried vc with
-                      | (Val w, _) => (Val (VBool (truthy w)), sc3)
-                      | (o, _) => (wrap o, sc3)
+                      match compare_link op2 vb vc with
+                      | Val w => (Val (VBool (truthy w)), sc3)
+                      | o => (wrap o, sc3)
                       end
                   | bad => bad
                   end
                 else (Val (VBool false), sc2)
-            | (o, _) => (wrap o, sc2)
+            | o => (wrap o, sc2)
             end
         | bad => bad
         end
@@ -216,30 +214,19 @@ Section Laws.
     cbn [eval_compare]. destruct (ev b sc1) as [ob sc2] eqn:Eb.
     assert (Wb : wrap ob = ob) by (pose proof (eval_wrapped b sc1) as W; rewrite Eb in W; exact W).
     destruct ob; cbn [fst snd wrap] in *; try (rewrite ?Wb; reflexivity).
-    destruct (compare_link op1 v v0) as [o carried]. destruct o; cbn [fst snd wrap]; try reflexivity.
-    destruct (truthy v1); [|reflexivity].
+    destruct (compare_link op1 v v0) as [w| |k|u]; cbn [fst snd wrap]; try reflexivity.
+    destruct (truthy w); [|reflexivity].
     destruct (ev c sc2) as [oc sc3] eqn:Ec.
     assert (Wc : wrap oc = oc) by (pose proof (eval_wrapped c sc2) as W; rewrite Ec in W; exact W).
     destruct oc; cbn [fst snd wrap] in *; try (rewrite ?Wc; reflexivity).
-    destruct (compare_link op2 carried v2) as [o2 c2]. destruct o2; cbn [fst snd wrap]; try reflexivity.
-    destruct (truthy v3); reflexivity.
+    destruct (compare_link op2 v0 v1) as [w2| |k|u]; cbn [fst snd wrap]; try reflexivity.
+    destruct (truthy w2); reflexivity.
   Qed.
 
-  (* what a link carries to the next one: the right operand, date-parsed when the left one was a date *)
-  Lemma compare_link_carried op va vb o carried :
-    compare_link op va vb = (Val o, carried) -> date_coerces va vb = false -> carried = vb.
-  Proof.
-    unfold compare_link, coerce_dates, date_coerces.
-    destruct va; destruct vb; cbn [is_date is_str andb]; try discriminate;
-      try (intros H _; inversion H; reflexivity).
-    - unfold iso_outcome. destruct (parse_iso s); intros H; inversion H; reflexivity.
-  Qed.
-
-  (* a op1 b op2 c  ==  (a op1 b) and (b op2 c), when evaluating b neither fails differently nor binds, and
-     b's value is not a string compared against a date on its left (that link hands the parsed date on) *)
+  (* a op1 b op2 c  ==  (a op1 b) and (b op2 c), whenever evaluating b leaves the scope as it finds it
+     (b is evaluated twice on the right-hand side; it may fail — both sides then fail alike) *)
   Lemma chain_is_conjunction a op1 b op2 c sc :
-    (forall va sc1, ev a sc = (Val va, sc1) ->
-       exists ob, ev b sc1 = (ob, sc1) /\ forall vb, ob = Val vb -> date_coerces va vb = false) ->
+    (forall va sc1, ev a sc = (Val va, sc1) -> exists ob, ev b sc1 = (ob, sc1)) ->
     ev (ECompare a [(op1, b); (op2, c)]) sc =
     ev (EBoolOp And [ECompare a [(op1, b)]; ECompare b [(op2, c)]]) sc.
   Proof.
@@ -247,17 +234,14 @@ Section Laws.
     rewrite eval_compare_two, eval_boolop_eq. cbn [eval_boolop]. rewrite !eval_compare_one.
     destruct (ev a sc) as [oa sc1] eqn:Ea.
     destruct oa as [va| |k|u]; try reflexivity.
-    destruct (Hpure va sc1 eq_refl) as [ob [Eb Hco]]. rewrite Eb.
+    destruct (Hpure va sc1 eq_refl) as [ob Eb]. rewrite Eb.
     destruct ob as [vb| |k|u]; try reflexivity.
-    specialize (Hco vb eq_refl).
-    destruct (compare_link op1 va vb) as [o1 carried] eqn:L1.
-    destruct o1 as [v1| |k|u]; try reflexivity.
-    pose proof (compare_link_carried _ _ _ _ _ L1 Hco) as ->.
-      cbn [truthy]. destruct (truthy v1); [|reflexivity].
-      cbn [truthy]. rewrite eval_compare_one, Eb.
-      destruct (ev c sc1) as [oc sc3]. destruct oc as [vc| |k|u]; try reflexivity.
-      destruct (compare_link op2 vb vc) as [o2 c2]. destruct o2 as [v2| |k|u]; cbn [wrap]; try reflexivity.
-      cbn [truthy]. destruct (truthy v2); reflexivity.
+    destruct (compare_link op1 va vb) as [v1| |k|u] eqn:L1; try reflexivity.
+    cbn [truthy]. destruct (truthy v1); [|reflexivity].
+    cbn [truthy]. rewrite eval_compare_one, Eb.
+    destruct (ev c sc1) as [oc sc3]. destruct oc as [vc| |k|u]; try reflexivity.
+    destruct (compare_link op2 vb vc) as [v2| |k|u]; cbn [wrap]; try reflexivity.
+    cbn [truthy]. destruct (truthy v2); reflexivity.
   Qed.
 
   (* ---------- string ==, !=, in, not in ignore ASCII letter case ---------- *)
@@ -425,12 +409,11 @@ Section Laws.
   Qed.
 
   (* ---------- dates ---------- *)
-  (* a date against an ISO date string: the string is parsed and the two dates are compared as dates;
-     the parsed date is what a longer chain carries on *)
+  (* a date against an ISO date string: the string is parsed and the two dates are compared as dates *)
   Lemma date_vs_iso_string op n s n' :
     parse_iso s = IsoOk n' ->
-    compare_link op (VDate n) (VStr s) = (cmp_apply op (VDate n) (VDate n'), VDate n') /\
-    compare_link op (VStr s) (VDate n) = (cmp_apply op (VDate n') (VDate n), VDate n) /\
+    compare_link op (VDate n) (VStr s) = cmp_apply op (VDate n) (VDate n') /\
+    compare_link op (VStr s) (VDate n) = cmp_apply op (VDate n') (VDate n) /\
     (List.In op [Lt; LtE; Gt; GtE] -> cmp_apply op (VDate n) (VDate n') = Val (VBool (order_test op (n ?= n')%Z))) /\
     cmp_apply Eq (VDate n) (VDate n') = Val (VBool (n =? n')%Z) /\
     cmp_apply NotEq (VDate n) (VDate n') = Val (VBool (negb (n =? n')%Z)).
@@ -441,7 +424,7 @@ Section Laws.
   Qed.
 
   Lemma date_vs_bad_string op n s :
-    parse_iso s = IsoBad -> fst (compare_link op (VDate n) (VStr s)) = ExprErr.
+    parse_iso s = IsoBad -> compare_link op (VDate n) (VStr s) = ExprErr.
   Proof. intros Hp. unfold compare_link, coerce_dates, iso_outcome. now rewrite Hp. Qed.
 
   (* month / year / day / weekday are those of the transaction's date (0 without a date) *)
@@ -700,15 +683,14 @@ Section Laws.
   End Single.
 End Laws.
 
-(* strip_suffix: "remove the suffix if present".  The code slices text[:-len(suffix)], which for an empty
-   suffix is text[:0]: the documented meaning fails exactly there. *)
+(* strip_suffix(text, suffix) removes the suffix if present (compared ignoring ASCII case) and nothing else.
+   History: before the fix "strip_suffix slices by explicit length" the code sliced text[:-len(suffix)], which
+   for the empty suffix is text[:0]; this statement was then refuted by ("STORE", ""). *)
 Definition strip_suffix_statement : Prop :=
   forall t s : string,
+    (cp_len s <= cp_len t)%nat ->
     strip_suffix_str t s =
     if is_suffix (upper s) (upper t) then sconcat (firstn (cp_len t - cp_len s) (cps t)) else t.
-
-Lemma strip_suffix_refuted : ~ strip_suffix_statement.
-Proof. intros H. specialize (H "STORE" ""). vm_compute in H. discriminate. Qed.
 
 Lemma clamp_zero len : (0 <= len)%Z -> clamp_index len 0 = 0%Z.
 Proof.
@@ -717,29 +699,26 @@ Proof.
   destruct (Z.ltb_spec len 0); [lia|reflexivity].
 Qed.
 
-Lemma clamp_neg len k : (0 < k <= len)%Z -> clamp_index len (- k) = (len - k)%Z.
+Lemma clamp_inside len j : (0 <= j <= len)%Z -> clamp_index len j = j.
 Proof.
   intros H. unfold clamp_index.
-  destruct (Z.ltb_spec (- k) 0); [|lia].
-  destruct (Z.ltb_spec (- k + len) 0); [lia|].
-  destruct (Z.ltb_spec len (- k + len)); lia.
+  destruct (Z.ltb_spec j 0); [lia|].
+  destruct (Z.ltb_spec j 0); [lia|].
+  destruct (Z.ltb_spec len j); lia.
 Qed.
 
-Lemma slice_list_drop_last {A} (l : list A) (k : nat) :
-  (0 < k <= length l)%nat -> slice_list l 0 (- Z.of_nat k) = firstn (length l - k) l.
+Lemma slice_list_prefix {A} (l : list A) (k : nat) :
+  (k <= length l)%nat -> slice_list l 0 (Z.of_nat (length l) - Z.of_nat k) = firstn (length l - k) l.
 Proof.
   intros Hk. unfold slice_list.
-  rewrite clamp_zero by lia. rewrite clamp_neg by lia.
+  rewrite clamp_zero by lia. rewrite clamp_inside by lia.
   destruct (Z.leb_spec (Z.of_nat (length l) - Z.of_nat k) 0) as [L|L].
   - assert (H0 : (length l - k = 0)%nat) by lia. rewrite H0. reflexivity.
   - cbn [skipn Z.to_nat]. f_equal. lia.
 Qed.
 
-Lemma strip_suffix_partial t s :
-  (0 < cp_len s <= cp_len t)%nat ->
-  strip_suffix_str t s =
-  if is_suffix (upper s) (upper t) then sconcat (firstn (cp_len t - cp_len s) (cps t)) else t.
+Lemma strip_suffix_holds : strip_suffix_statement.
 Proof.
-  intros H. unfold strip_suffix_str. destruct (is_suffix (upper s) (upper t)); [|reflexivity].
-  unfold slice_str. unfold cp_len in *. now rewrite slice_list_drop_last.
+  intros t s H. unfold strip_suffix_str. destruct (is_suffix (upper s) (upper t)); [|reflexivity].
+  unfold slice_str. unfold cp_len in *. now rewrite slice_list_prefix.
 Qed.
